@@ -1079,6 +1079,16 @@ def m_b16(ex, st, node, b):
     return VStr(r, TBytes())
 
 
+def b_reversed(ex, st, node, seq):
+    """reversed(list): element k of the result is element n-1-k"""
+    if not isinstance(seq, VList): raise ToolLimit('reversed of %s' % type(seq).__name__)
+    r = fresh('reversed', TList(seq.elem)); i = z3.Int(fid('ri'))
+    st.assume(r.n == seq.n)
+    st.assume(z3.ForAll([i], z3.Implies(z3.And(0 <= i, i < seq.n), z3.Select(r.arr, i) == z3.Select(seq.arr, seq.n - 1 - i))))
+    return r
+
+
+BUILTINS['reversed'] = b_reversed
 MODFUNCS['base64.b16encode'] = m_b16
 MODFUNCS['platform.system'] = lambda ex, st, node: VStr(z3.Function('platform_system', z3.StringSort())(), TStr())          # 'Linux', 'Windows', 'Darwin', 'Java', '' ...: unknown here
 MODULES.add('platform')
